@@ -460,7 +460,14 @@ let run_fs_case (idx : int) (toks : string list) =
     | Some f0 ->
       let w = fs_content 9000 0 in
       let f1 = write_bytes f0 w now in
-      Printf.printf "w %s eq=%s content=%s\n" tag (bb (eq (stamp_w f1) (stamp_p f1))) (bb (match f1 with PFile (c, _) -> list_eq c w | _ -> false)) in
+      Printf.printf "w %s eq=%s content=%s\n" tag (bb (eq (stamp_w f1) (stamp_p f1))) (bb (match f1 with PFile (c, _) -> list_eq c w | _ -> false));
+      (* a second, shorter write of the same path: opening for writing truncates again *)
+      (match open_write f1 now with
+       | None -> Printf.printf "w2 %s err\n" tag
+       | Some g0 ->
+         let w2 = fs_content 7 1 in
+         let g1 = write_bytes g0 w2 now in
+         Printf.printf "w2 %s content=%s\n" tag (bb (match g1 with PFile (c, _) -> list_eq c w2 | _ -> false))) in
   (* Exists *)
   let r0 = open_read s1 in
   Printf.printf "r E eq=%s rew=%s\n" (bb (ex_stamp s1 = ex_stamp_reader r0)) (rew s1 r0);
